@@ -84,6 +84,9 @@ func (e *Engine) verifyFunc(key string, interf bool) {
 	st.now = fc.declare(st, "now", "Int")
 	fr := fc.newFrame(fn, nil)
 	fc.top = fr
+	if e.curVars != nil {
+		e.curVars[key] = loopVarsOf(fr)
+	}
 	fr.params = map[string]Val{}
 	for i, p := range fn.Params {
 		v := fc.freshVal(st, p.Name(), p.Type())
@@ -378,6 +381,9 @@ func (fc *fnCtx) runDefers(st *State, fr *frame, k func(*State)) {
 			fc.e.externals["deferred call without contract in "+fr.key] = true
 			run(st, i-1)
 			return
+		}
+		if fc.interf && spec.key == "(*sync.Mutex).Unlock" {
+			fc.lockInvariant(st, &nf, d.Common(), fmt.Sprintf("defer%d", i+1), true)
 		}
 		fc.applySpec(st, &nf, fmt.Sprintf("defer%d", i+1), spec, recv, args, resT, func(st *State, _ []Val) { run(st, i-1) })
 	}
